@@ -104,6 +104,12 @@ def check_iter(rec, out, edges, dim, worst, size, variant):
     if len(cells) != len(exp):
         worst.add("IterateBins: number of cells", size, dict(base, expected=len(exp), observed=len(cells)))
         return
+    # the order of enumeration is not fixed by the statement: cells are matched by their edges
+    try:
+        cells = sorted(cells, key=lambda c: lists(c[1]["bin"]["edges"]))
+    except Exception as exc:   # noqa
+        worst.add("IterateBins: malformed value", size, dict(base, observed=repr(cells)[:300], exception=repr(exc)))
+        return
     for n, (c, e) in enumerate(zip(cells, exp)):
         try:
             data, ctx = c
@@ -248,7 +254,8 @@ def second_oracle(ctx, rec, worst):
             except Exception as exc:   # noqa
                 worst.add("IterateBins raised %s" % type(exc).__name__, size, dict(base, exception=repr(exc)))
                 continue
-            if len(cellsout) != len(cells) or any(c[0] != exp[idx][0][0] for c, idx in zip(cellsout, cells)):
+            want = sorted(repr(exp[idx][0][0]) for idx in cells)
+            if len(cellsout) != len(cells) or sorted(repr(c[0]) for c in cellsout) != want:
                 worst.add("IterateBins: cell content or context of another cell", size,
                           dict(base, observed=repr(cellsout)[:300]))
 
@@ -301,8 +308,8 @@ def record_runs(ctx, rnd, n, worst):
                 maps = [{x: i for i, x in enumerate(sorted(set(list(e) + [c[d] for c in coords])))}
                         for d, e in enumerate(edges)]
                 cells = list(ls.IterateBins(select_bins=lambda _: True).run(iter([copy.deepcopy(out[0])])))
-                rec["iter"] = [[[maps[d][lo], maps[d][hi]] for d, (lo, hi) in enumerate(c[1]["bin"]["edges"])]
-                               for c in cells]
+                rec["iter"] = sorted([[maps[d][lo], maps[d][hi]] for d, (lo, hi) in enumerate(c[1]["bin"]["edges"])]
+                                     for c in cells)       # order of enumeration not fixed by the statement
         except Exception as exc:   # noqa
             size = (10 ** 6 + len(coords), 0, core.canon(rec))
             worst.add("raised %s" % type(exc).__name__, size, {"scenario": bl.scen_text(rec), "exception": repr(exc),
